@@ -48,6 +48,14 @@ EXTRA = {
             ("SafeC.Norm.reorderLoop_eq_pure", "SafeC.Proofs.NormReorder", "lemma", "the reorder loop (runs of non-starters collected, sorted by (class, arrival), emitted) = the pure canonical reordering, all lists"),
             ("SafeC.Norm.composeLoop_no_oob", "SafeC.Proofs.NormRange", "lemma", "the compose loop indexes no table out of bounds on code points (or with the range check), every state of the loop"),
             ("SafeC.Norm.composeLoop_no_overrun", "SafeC.Proofs.NormRange", "lemma", "with more room than pending cells the compose loop never wraps its unsigned dmax"),
+            ("SafeC.Norm.compositeCp_class0", "SafeC.Proofs.NormCompose2", "table", "whatever _composite_cp returns, for every pair of 32-bit values, has combining class 0 in the tree's table and in UCD 14.0 (stored composites kernel-checked, Hangul by arithmetic)"),
+            ("SafeC.Norm.fwd2_check", "SafeC.Proofs.NormPairMap", "table", "every UCD 14.0 primary composite (pair order) is what the repaired lookup returns, not excluded, non-zero, assigned"),
+            ("SafeC.Norm.bwd2_check", "SafeC.Proofs.NormPairMap", "table", "every stored pair with a non-excluded composite: the composite is assigned in 14.0 and is UCD's primary composite of exactly that pair"),
+            ("SafeC.Norm.cellcp_check", "SafeC.Proofs.NormPairMap", "table", "the composition list a code point reaches is the list recorded for that code point (every block with a page)"),
+            ("SafeC.Norm.pcOf_eq_ucd", "SafeC.Proofs.NormPairMap2", "lemma", "_composite_cp + isExclusion (repaired) = D114 primary composite of UCD 14.0 incl. Hangul, as functions on every pair of code points"),
+            ("SafeC.Norm.composeLoop_eq_pure", "SafeC.Proofs.NormComposeSpec", "lemma", "the compose loop of wcsnorm_compose_s (starter / pre_cc / pending sequence, look-ahead) = a pure streaming composition, all lists, any room"),
+            ("SafeC.Norm.composePure_eq_d117", "SafeC.Proofs.NormComposeSpec", "lemma", "the streaming composition = D117 as the Standard words it (seek back for the last starter, D115 blocking, replace and delete) on canonically ordered text when composites of starters are starters"),
+            ("SafeC.Norm.d117_congr_pc", "SafeC.Proofs.NormComposeSpec", "lemma", "D117 depends on the pair map only through a closed set containing the text"),
             ("SafeC.Fold.fold_announce_exceptions", "SafeC.Proofs.FoldCount", "full", "each of the 748 listed code points really disagrees (announces 0 but folds / announces 1 but unchanged): the exception lists of fold_announce_partial are tight"),
             ("SafeC.Fold.tables_lit", "SafeC.Proofs.FoldCount", "table", "the written-out copies of casemaps / pairs / casemapsl used by the fold proofs equal the generated tables")],
     "C08": [("SafeC.nullSlack_ok", "SafeC.Lemmas", "lemma", "both slack strategies (memset > 0x20, byte loop) zero the whole tail")],
